@@ -229,6 +229,9 @@ func (x *Exec) verify(con *Contract) (fres *FuncResult) {
 	if x.aborted == "" {
 		for _, cl := range con.Clauses {
 			for _, m := range reCallName.FindAllStringSubmatch(cl.Text, -1) {
+				if strings.Contains(cl.Text, `ncalls("`+m[2]+`") == 0`) {
+					continue // "is never called" is exactly what the clause says
+				}
 				if n := canonCall(m[2]); !x.seenCalls[n] {
 					x.note("call name never counted in " + shortKey(con.Key()) + ": " + n + " (clause " + cl.ID + ")")
 				}
